@@ -314,7 +314,12 @@ class Inliner(object):
         all_uses = sum(1 for n in ast.walk(fn) if isinstance(n, ast.Name) and n.id == s.name)
         if callee_uses == all_uses and callee_uses: closures[s.name] = s
     self.expr_inline(fn, cls, closures)
+    if depth == 0:
+      self.cur_known = set(self.inv.get(qual, ())); self.cur_taken = local_names(fn); self.cur_claimed = set()
     fn.body = self.block(fn.body, cls, qual, depth, closures)
+    if depth == 0:
+      self.claimed_by_func = getattr(self, 'claimed_by_func', {}); self.claimed_by_func[qual] = set(self.cur_claimed)
+      self.cur_known = set(); self.cur_taken = set()
     # the definition of a closure disappears only when every call to it was inlined
     mine = [s for s in fn.body if isinstance(s, FUNC) and closures.get(s.name) is s]
     for d in mine:
@@ -505,7 +510,13 @@ class Inliner(object):
         for al in n.names: imported.add((al.asname or al.name).split('.')[0])
       elif isinstance(n, FUNC + (ast.ClassDef,)): imported.add(n.name)
     for nm in local_names(h) - set(params_of(h)) - imported:
-      m[nm] = "%s__%s" % (h.name.strip('_'), nm)
+      # a local that carries a name the calling function used to have itself (its body was moved into the helper) keeps
+      # that name, provided the caller does not use it any more
+      keep = getattr(self, 'cur_known', set()); taken = getattr(self, 'cur_taken', set())
+      if nm in keep and nm not in taken:
+        m[nm] = nm; self.cur_claimed.add(nm)
+      else:
+        m[nm] = "%s__%s" % (h.name.strip('_'), nm)
     body = [_Subst(m).visit(s) for s in body]
     ret = ("%s__ret%d" % (h.name.strip('_'), k)) if want_value and not tail else None
     done = "%s__done%d" % (h.name.strip('_'), k)
